@@ -52,3 +52,53 @@ def tri_groups(props):
                         bound_note="(all dimensions and the cutoff symbolic; the data loops of the order <= 64 base case are outside the assumed regime and decided in layer B)",
                         timeout=900, mem_gb=16, slots=2))
     return gs
+
+
+ACC = ["mzd_read_bits", "mzd_xor_bits", "mzd_clear_bits", "mzd_write_bit"]
+
+
+def solve_groups(props):
+    """solve.c: PLUQ solve (wrapper + worker), the factor-and-solve front end and the kernel"""
+    gs = []
+    win = ["mzd_init_window", "mzd_free"]
+    spec = {
+        "PLUQ_SOLVE": ("_mzd_pluq_solve_left", win + ACC + ["mzd_apply_p_left", "mzd_apply_p_left_trans", "mzd_trsm_lower_left", "mzd_trsm_upper_left", "mzd_is_zero", "mzd_set_ui", "mzd_addmul"]),
+        "PLUQ_SOLVE_W": ("mzd_pluq_solve_left", ["_mzd_pluq_solve_left"]),
+        "SOLVE": ("_mzd_solve_left", win + ["mzd_is_zero", "mzp_init", "mzp_free", "_mzd_pluq", "mzd_pluq_solve_left"]),
+        "KERNEL": ("mzd_kernel_left_pluq", win + ACC + ["mzd_init", "mzp_init", "mzp_free", "mzd_pluq", "mzd_trsm_upper_left", "mzd_apply_p_left_trans"]),
+    }
+    fam = ["mzd_solve_left", "mzd_pluq_solve_left", "_mzd_pluq_solve_left", "_mzd_solve_left", "mzd_kernel_left_pluq"]
+    for name, (fn, repl) in spec.items():
+        gs.append(Group(gid="S." + fn, props=list(props), harness="s_solve.c", function=fn, layer="S", defines={"H_" + name: None}, tus=["misc", "/verif/stubs/libm_any.c"], native_tus=[],
+                        enforce=[fn], replace=repl, loop_contracts=True, remove_bodies=[f for f in fam if f != fn and f not in repl], object_bits=12, bounded=False,
+                        bound_note="(all dimensions, the rank, the cutoff and the flags symbolic; loops closed by inserted invariants, bit accessors by index-range contracts)",
+                        timeout=900, mem_gb=16, slots=2))
+    return gs
+
+
+def ech_groups(props):
+    """echelonform.c: mzd_echelonize_pluq, full reduction"""
+    repl = ["mzd_init_window", "mzd_free", "mzp_init", "mzp_free", "mzd_pluq", "mzd_ple", "mzd_trsm_upper_left", "mzd_submatrix", "mzd_copy", "mzd_set_ui", "mzd_apply_p_right"] + ACC
+    return [Group(gid="S.mzd_echelonize_pluq", props=list(props), harness="s_ech.c", function="mzd_echelonize_pluq", layer="S", defines={"H_ECH_PLUQ": None},
+                  tus=["misc", "/verif/stubs/libm_any.c"], native_tus=[], enforce=["mzd_echelonize_pluq"], replace=repl, remove_bodies=["mzd_echelonize", "mzd_echelonize_m4ri"],
+                  object_bits=12, bounded=False, bound_note="(all dimensions and the rank symbolic; full reduction only)", timeout=900, mem_gb=16, slots=2)]
+
+
+def front_groups(props):
+    """ple.c: PLUQ on top of PLE and the two checked wrappers; brilliantrussian.c: the Four-Russians inversion front end"""
+    gs = []
+    ple_fam = ["mzd_ple", "mzd_pluq", "_mzd_pluq", "_mzd_ple", "_mzd_pluq_naive", "_mzd_ple_naive"]
+    br_fam = ["_mzd_gauss_submatrix_full", "_mzd_gauss_submatrix", "_mzd_gauss_submatrix_top", "_mzd_copy_back_rows", "mzd_make_table", "_mzd_echelonize_m4ri", "_mzd_top_echelonize_m4ri",
+              "mzd_inv_m4ri", "mzd_mul_m4rm", "mzd_addmul_m4rm", "_mzd_mul_m4rm", "mzd_echelonize_m4ri", "mzd_top_echelonize_m4ri", "mzd_process_rows", "mzd_process_rows2", "mzd_process_rows3",
+              "mzd_process_rows4", "mzd_process_rows5", "mzd_process_rows6"]
+    spec = {
+        # "_mzd_pluq" itself (PLE + one window + triangular column permutation) gave no verdict in 900 s under dfcc (not pursued)
+        "PLUQ_W": ("mzd_pluq", ["_mzd_pluq"], ple_fam),
+        "PLE_W": ("mzd_ple", ["_mzd_ple"], ple_fam),
+        "INV": ("mzd_inv_m4ri", ["mzd_init", "mzd_init_window", "mzd_free", "mzd_copy", "mzd_set_ui", "mzd_echelonize_m4ri"], br_fam),
+    }
+    for name, (fn, repl, fam) in spec.items():
+        gs.append(Group(gid="S." + fn, props=list(props), harness="s_front.c", function=fn, layer="S", defines={"H_" + name: None}, tus=["misc", "/verif/stubs/libm_any.c"], native_tus=[],
+                        enforce=[fn], replace=repl, remove_bodies=[f for f in fam if f != fn and f not in repl], object_bits=12, bounded=False,
+                        bound_note="(all dimensions symbolic)", timeout=900, mem_gb=16, slots=2))
+    return gs
